@@ -82,6 +82,11 @@ type Witness struct {
 
 func buildTargets(c *fw.Ctx) []*target {
 	var out []*target
+	// a matcher that says yes without looking at the stream, to sit in front of the matcher under test in one matcher set
+	notM, notErr := mt.Load("not", `[{"remote_ip":{"ranges":["203.0.113.0/24"]}}]`)
+	if notErr != nil {
+		c.Violation("C04 config rejected not", notErr.Error(), nil)
+	}
 	for _, gt := range seedpool.Targets(c.Seed) {
 		m, err := mt.Load(gt.Matcher, gt.Config)
 		if err != nil {
@@ -118,6 +123,16 @@ func buildTargets(c *fw.Ctx) []*target {
 						last = nil
 					}
 				}})
+			// the same matcher as the second member of a matcher set, behind a "not" matcher (which evaluates matcher sets
+			// of its own), on a connection whose peer has unlimited data waiting behind the prefetched bytes: matching
+			// works on the prefetched bytes alone, so the verdict comes at once and costs no more than on its own
+			if notM != nil && !strings.Contains(gt.Name(), "/c14#") {
+				out = append(out, &target{name: name + "+behind-not", udp: udp, slow: true, seeds: gt.Seeds, matcher: gt.Matcher, config: gt.Config,
+					call: func(in []byte) (string, error) {
+						v, err := m.EvalBehind(mt.NewFloodConn(in, mt.Opts{UDP: udp}), notM)
+						return string(v), err
+					}})
+			}
 		}
 	}
 	out = append(out, handlerTargets(c)...)
